@@ -76,6 +76,69 @@ func (g *gen) grammatical() string {
 	return sign + m + e
 }
 
+// steeredNumeric writes a finite numeric string whose mantissa carries leading zeros (before the point,
+// after it, or both) and/or trailing zeros, with the written exponent chosen so that the adjusted exponent
+// of the denoted value lands at or next to the context's MaxExponent, MinExponent or Etiny: the places
+// where a digit count taken from the text instead of the value decides between a finite result, an
+// overflow, a subnormal and an error.
+func (g *gen) steeredNumeric(c *apd.Context) string {
+	sign := []string{"", "", "+", "-"}[g.r.Intn(4)]
+	zeros := func(n int64) string { return strings.Repeat("0", int(n)) }
+	// significant digits: first digit non-zero
+	nsig := 1 + g.r.Intn(12)
+	if g.r.Intn(4) == 0 {
+		nsig = int(c.Precision) + g.r.Intn(3) - 1
+		if nsig < 1 {
+			nsig = 1
+		}
+	}
+	var sb strings.Builder
+	sb.WriteByte(byte('1' + g.r.Intn(9)))
+	for i := 1; i < nsig; i++ {
+		sb.WriteByte(byte('0' + g.r.Intn(10)))
+	}
+	sig := sb.String() + zeros(g.pick(0, 0, 0, 1, 3))
+	var m string
+	var adjM int64 // adjusted exponent of the mantissa's value
+	lzInt := g.pick(0, 0, 1, 2, 5)
+	switch g.r.Intn(4) {
+	case 0: // 000ddd
+		m = zeros(lzInt) + sig
+		adjM = int64(len(sig) - 1)
+	case 1: // 00.000ddd
+		lzFrac := g.pick(0, 1, 2, 3, 7)
+		m = zeros(lzInt) + "." + zeros(lzFrac) + sig
+		adjM = -int64(lzFrac) - 1
+	case 2: // 00d.ddd
+		k := 1 + g.r.Intn(len(sig))
+		m = zeros(lzInt) + sig[:k] + "." + sig[k:]
+		adjM = int64(k - 1)
+	default: // .000ddd
+		lzFrac := g.pick(0, 1, 2, 4, 9)
+		m = "." + zeros(lzFrac) + sig
+		adjM = -int64(lzFrac) - 1
+	}
+	etiny := int64(c.MinExponent) - int64(c.Precision) + 1
+	targets := []int64{int64(c.MaxExponent) - 1, int64(c.MaxExponent), int64(c.MaxExponent) + 1, int64(c.MaxExponent) + 2,
+		int64(c.MinExponent), int64(c.MinExponent) - 1, int64(c.MinExponent) + 1, etiny, etiny - 1, etiny + 1,
+		100000, 100001, 99999, -100000, -100001}
+	t := targets[g.r.Intn(len(targets))] + int64(g.pick(0, 0, 0, 1, -1, 3, -3))
+	ex := t - adjM
+	es := ""
+	if ex >= 0 && g.r.Intn(2) == 0 {
+		es = "+"
+	}
+	exs := fmt.Sprint(ex)
+	if g.r.Intn(6) == 0 { // leading zeros in the exponent digits
+		if ex < 0 {
+			exs = "-" + zeros(g.pick(1, 2, 9, 15)) + exs[1:]
+		} else {
+			exs = zeros(g.pick(1, 2, 9, 15)) + exs
+		}
+	}
+	return sign + m + []string{"e", "E"}[g.r.Intn(2)] + es + exs
+}
+
 // confusable returns a byte or rune that is NOT in the grammar but is "close" to a character that is:
 // one bit away from it (so any masking / case-folding trick maps it onto the grammar), with the high bit
 // set, or a Unicode digit / sign / letter look-alike.
@@ -175,6 +238,9 @@ func (rn *runner) streamStrings(g *gen) {
 			c.Traps = g.traps()
 		}
 		s := g.grammatical()
+		if g.r.Intn(4) == 0 {
+			s = g.steeredNumeric(c)
+		}
 		switch g.r.Intn(10) {
 		case 0, 1, 2, 3:
 			rn.parseCase(c, s, "grammatical")
